@@ -82,7 +82,7 @@ Qed.
 
 (* one operation of a history *)
 Lemma op_refines : forall op d d',
-  op_ok lit fl op d = true -> run_op lit fl op d = Done d' ->
+  op_ok lit fl op d = true -> run_op lit fl op d = MDone d' ->
   psteps (abs_op lit fl op d) (erase d) (erase d').
 Proof.
   intros op d d' Hok H. unfold op_ok in Hok. apply andb_true_iff in Hok. destruct Hok as [Hwf Hok].
